@@ -987,7 +987,10 @@ func (c *compiler) evalCallExpression(node *ast.CallExpression) (interface{}, er
 			return nil, fmt.Errorf("could not call %s function: %w", node.Function, e)
 		}
 		if node.ChainCallee != nil {
-			octx := c.ctx.(*Context)
+			octx, err := c.scope()
+			if err != nil {
+				return nil, err
+			}
 			defer func() {
 				c.ctx = octx
 			}()
@@ -1025,8 +1028,23 @@ func safeCall(fn reflect.Value, args []reflect.Value) (res []reflect.Value, err 
 	return fn.Call(args), nil
 }
 
+// scope returns the current scope as a *Context, whose data a loop, an indexed
+// callee and a chained call copy into the scope they open. Scopes opened during
+// an execution are *Context values: this fails only for a foreign hctx.Context
+// handed to Exec, and then with an error, not a failed type assertion.
+func (c *compiler) scope() (*Context, error) {
+	octx, ok := c.ctx.(*Context)
+	if !ok {
+		return nil, fmt.Errorf("expected the context to be a *plush.Context, got %T", c.ctx)
+	}
+	return octx, nil
+}
+
 func (c *compiler) evalForExpression(node *ast.ForExpression) (interface{}, error) {
-	octx := c.ctx.(*Context)
+	octx, err := c.scope()
+	if err != nil {
+		return nil, err
+	}
 	defer func() {
 		c.ctx = octx
 	}()
@@ -1264,7 +1282,10 @@ func (c *compiler) evalArrayLiteral(node *ast.ArrayLiteral) (interface{}, error)
 }
 
 func (c *compiler) evalIndexCallee(rv reflect.Value, node *ast.IndexExpression) (interface{}, error) {
-	octx := c.ctx.(*Context)
+	octx, err := c.scope()
+	if err != nil {
+		return nil, err
+	}
 	defer func() {
 		c.ctx = octx
 	}()
